@@ -11,6 +11,7 @@ _SERIAL = [0]
 
 SM = ["sm"]          # name of the scenario manager the factory registers (a harness may switch it, e.g. to "2024")
 RUNSPEC = [1.0, 10.0, 1.0]
+TWO = [False]        # True: the factory registers a second manager "sm2" (another model) and sessions span both managers
 
 def make_bptk():
     m = Model(starttime=RUNSPEC[0], stoptime=RUNSPEC[1], dt=RUNSPEC[2], name="m")
@@ -20,6 +21,12 @@ def make_bptk():
     b.register_model(m)
     b.register_scenario_manager({SM[0]: {"model": m}})
     b.register_scenarios(scenario_manager=SM[0], scenarios={"base": {"constants": {"c": 1.0}}})
+    if TWO[0]:
+        m2 = Model(starttime=RUNSPEC[0], stoptime=RUNSPEC[1], dt=RUNSPEC[2], name="m2")
+        s2 = m2.stock("s"); f2 = m2.flow("f"); c2 = m2.constant("c")
+        s2.initial_value = 5.0; c2.equation = 3.0; f2.equation = c2 * 2.0; s2.equation = f2
+        b.register_scenario_manager({"sm2": {"model": m2}})
+        b.register_scenarios(scenario_manager="sm2", scenarios={"base": {"constants": {"c": 3.0}}})
     orig = b.destroy
     _SERIAL[0] += 1
     b._verif_serial = _SERIAL[0]
@@ -52,7 +59,7 @@ def start(client, headers=None, timeout=None):
     return json.loads(r.data)["instance_uuid"]
 
 def begin(client, u, headers=None):
-    return client.post("/%s/begin-session" % u, json=dict(BEGIN, scenario_managers=[SM[0]]), headers=headers or {})
+    return client.post("/%s/begin-session" % u, json=dict(BEGIN, scenario_managers=[SM[0]] + (["sm2"] if TWO[0] else [])), headers=headers or {})
 
 def digest(app):
     """server-side state that a refused request must not change"""
@@ -194,7 +201,7 @@ def run_c19(case):
         shutil.rmtree(d, ignore_errors=True)
 
 def _c20_begin2():
-    return {"scenario_managers": ["sm"], "scenarios": ["base"], "equations": ["s"]}
+    return {"scenario_managers": ["sm"] + (["sm2"] if TWO[0] else []), "scenarios": ["base"], "equations": ["s"]}
 
 def _c20_prehistory(case, cl, uu):
     # an earlier session of the same instance with other equations, m steps long, saved at the same clock positions
@@ -205,6 +212,7 @@ def _c20_prehistory(case, cl, uu):
 
 def _c20_setup(case):
     SM[0] = "sm"
+    TWO[0] = bool(case.get("two"))
     RUNSPEC[:] = case.get("runspec", [1.0, 10.0, 1.0])
 
 def _c20_reference(case, d_ref):
